@@ -257,6 +257,7 @@ def run(ctx, R, tier):
     first(F, R)
     once(F, R)
     write_unconditional(F, R)
+    payload_verbatim(F, R)
     # commands of different kinds do not interfere (the clock's reset does not undo a start): the C05 rule
     from .c05 import clock_rules
     clock_rules(F, R)
@@ -562,6 +563,38 @@ def first(F, R):
                 'the first callback would be applied one callback late or lost)' % (fn, field),
                 detail={'owner': fn, 'storage': field}, where=b.where(ra[0]))
     R.floor('B.C07.first', n, 8)
+
+
+PAYLOAD_CTORS = ('tuple', 'command::ValueChangeCommand::ValueChangeCommand', 'std::convert::Into::into',
+                 'sound::IntoOptionalRegion::into_optional_region', 'value::Value::<T>::to_')
+
+
+def payload_verbatim(F, R, rule='B.C07.payload', fn_filter=None, floor=60):
+    """What a handle method writes into its command channel is what it was given: the payload is built from the method's own
+    parameters with conversions only (`into()`, `to_()`, `into_optional_region()`, a tuple, the `ValueChangeCommand`
+    constructor) and constants - it is not adjusted on the game thread (clamped to a limit, combined with a value read back
+    from the audio side, moved from one field of the command to another), where the adjustment cannot see what the audio
+    thread will have by the time it applies the command."""
+    from ..paths import parse_term
+    n = 0
+
+    def ok_term(d, params):
+        nm, args = parse_term(d)
+        if args is None:
+            return d in params or d in ('True', 'False', 'tuple()', '()') or d.startswith(('const ', 'promoted['))
+        return nm in PAYLOAD_CTORS and all(ok_term(a, params) for a in args)
+    for b in F.bodies:
+        if b.krate != 'kira' or 'andle' not in b.path or (fn_filter is not None and not fn_filter(b.path)):
+            continue
+        params = [nm for l, nm in b.names.items() if 1 <= l <= b.arg_count]
+        for bb, t in b.calls():
+            if (callee_path(t) or '') != 'command::CommandWriter::<T>::write':
+                continue
+            n += 1
+            d = describe(b, t['args'][1], depth=8, at=bb)
+            R.check(ok_term(d, params), rule, 'verbatim:' + b.path.split('::{closure')[0], '%s writes %s: not its own arguments handed on as they are' % (b.path, d[:140]),
+                    detail={'payload': d[:160]}, where=b.where(bb), nontrivial=False)
+    R.floor(rule + '.verbatim', n, floor)
 
 
 def write_unconditional(F, R, rule='B.C07.write', fn_filter=None, floor=60):
